@@ -14,6 +14,7 @@ namespace opensmt {
 
 mpq_ptr FastRational::mpqPool::alloc()
 {
+    std::lock_guard<std::mutex> lock(mutex);
     mpq_ptr r;
     if (!pool.empty()) {
         r = pool.top();
@@ -26,6 +27,7 @@ mpq_ptr FastRational::mpqPool::alloc()
 
 void FastRational::mpqPool::release(mpq_ptr ptr)
 {
+    std::lock_guard<std::mutex> lock(mutex);
     pool.push(ptr);
 }
 
